@@ -13,6 +13,36 @@ CHECKS = {
              note='Trusted: abstract interpreter model of len/index/slice; MIDI 1.0 table. Not decided: inputs that are not sequences; exception type for a non-integer FIRST item. Reproduction of the input by bytes() rests on the C01 bijection obligation (R01.3b).',
              ref='DESIGN.md §3 C02'),
 }
+CHECKS.update({
+ 'C03': dict(tech='abstract interpretation of every writer of message state with logging check summaries; interval-set reduction of the check functions; package-wide scan for attribute-dict writers; MRO resolution of __setattr__/__delattr__',
+             text='Every construct in mido/ that can write a message attribute dict is enumerated and must be one of the analysed writers; Message.__init__, copy, _setattr, from_bytes, SysexData.__iadd__ and check_msgdict are abstractly interpreted with opaque marker values: a check of the stored value precedes the first store on every outcome, rejected names raise before any store, copy never writes the original; the check table is exhaustive and each check accepts exactly the documented integer set.',
+             note='Trusted: abstract interpreter, folder, transcribed documentation table. Excluded by the property itself: skip_checks=True. Not decided: skip_checks/self smuggled as a key inside a dict or text passed to from_dict/from_str.',
+             ref='DESIGN.md §3 C03'),
+ 'C04': dict(tech='one-step abstract interpretation of Tokenizer.feed_byte over 30 abstract pre-states x 256 bytes against a reference transition relation; structural rules on Parser',
+             text='Inductive argument over one-step summaries: for every abstract pre-state and every byte value the transition never raises, emits exactly the token a MIDI 1.0 tokenizer emits (real-time bytes exactly once, completed messages made of the status and the bytes received in order), keeps tokens already pending, never aliases an emitted buffer from a non-idle state and re-establishes the state invariant; every token shape is one C02 proves decodable; Parser._decode/feed are matched structurally.',
+             note='Trusted: abstract interpreter; the reference transition relation in midolint/rules/c04.py (allows both reset and keep where the properties allow both); C02 for token->message. No byte stream is executed.',
+             ref='DESIGN.md §3 C04'),
+ 'C05': dict(tech='structural fold/ownership/FIFO rules over the resolved program + the C04 one-step transitions',
+             text='Chunking independence follows from structure: Tokenizer.feed is exactly a fold of feed_byte, Parser.feed/feed_byte are tokenizer-call-then-decode on every path, tokenizer fields have a closed writer set, no method reads anything but fields/arguments/constants, transitions keep pending tokens, only append/extend/popleft ever touch a message queue anywhere in mido/, pending/get_message/__iter__ observe the same deque from the left, ParserQueue feeds and drains under one lock.',
+             note='Trusted: name resolution and path enumeration; deque semantics. Interleavings of retrieval and feeding commute because their effect sets meet only in the deque (append right / pop left) - argued, not enumerated.',
+             ref='DESIGN.md §3 C05'),
+ 'C06': dict(tech='one-step abstract transitions of the tokenizer read as resynchronisation obligations',
+             text='For every status byte that starts a message the post-state is the fresh state whatever the pre-state was (prefix forgotten); a real-time byte inside an open sysex leaves the sysex state untouched and is queued at once; from the fresh state data bytes complete exactly one token at the last byte; emitted buffers are final. With C02 this gives parse(P + encode(M)) = parse(P) + [M] by induction over bytes.',
+             note='Trusted: as C04. Chains of length <= 3 are covered by the k-indexed pre-states; no stream is run.',
+             ref='DESIGN.md §3 C06'),
+ 'C07': dict(tech='abstract interpretation of write_track/read_track/_save/_load over symbolic tracks in a wire-format domain (bit layouts, VLQ markers, struct fields, symbolic runs)',
+             text='About 60 symbolic tracks (all message kinds, running-status runs and breaks, sysex, all meta types incl. unknown, end_of_track placements) are written abstractly, the chunk length is compared with what follows, the items are served back to the abstractly interpreted reader and every message must come back equal in class, attributes and delta time with one trailing end_of_track; header round trip, save() and write_track guards (real-time, negative/non-integral time, type 0 track count), REALTIME_TYPES = real-time rows of SPECS.',
+             note='Trusted: abstract interpreter and wire domain; VLQ/read_bytes/struct/encode_string summaries (bodies checked by C08 R08.1, C09 R09.6, C17). Not decided: equality of arbitrary whole files, load-save-load fixed point on mutated bytes (values, not shape).',
+             ref='DESIGN.md §3 C07'),
+ 'C08': dict(tech='abstract interpretation of writer and reader against an independent reference SMF encoder; bit-layout analysis of the VLQ functions; range-class tracing of clip',
+             text='Writer output for ~60 symbolic tracks must equal the reference SMF 1.0 encoding item for item (running status rules, sysex/meta framing, FF 2F 00, chunk lengths, header); the reader is interpreted on the reference encodings incl. legal alternatives (running status, long header, tracks without end_of_track ending in 2-byte events); encode_variable_int/read_variable_int/decode_variable_int are interpreted in the bit domain for 1..5 groups, minimal and padded; clip is traced for byte classes 0..126/127/128..255 in channel and sysex data; the debug wrapper is a transparent observer.',
+             note='Trusted: midolint.smf reference encoder and SMF tables (the oracle), abstract interpreter. Not decided: byte-exact comparison with an external decoder over all event lists.',
+             ref='DESIGN.md §3 C08'),
+ 'C09': dict(tech='interval-set reduction of the spec check methods vs documentation; abstract interpretation of MetaMessage.bytes/build_meta_message/from_bytes/__init__/_setattr in the bit-layout domain; finite table walks',
+             text='Per meta type: accepted domain = documented domain, encoding = FF type VLQ(len(payload)) payload with every item a byte and the SMF bit layout, decode(encode(m)) = m through the reader path, from_bytes on payload lengths at the VLQ boundaries, all 256 denominators and 30 keys enumerated through check/encode/decode, check-before-store in __init__/_setattr at both range limits, registry and read_bytes limit.',
+             note='Known findings D6 (smpte_offset hours overlap) and D7 (sequencer_specific unchecked) are listed in known_findings.json. Trusted: abstract interpreter, SMF meta table, documentation table. Text payloads are symbolic byte runs (codec behaviour is C17 / not decided).',
+             ref='DESIGN.md §3 C09'),
+})
 NA = {}
 def main():
     props = [json.loads(l) for l in open(os.path.join(HERE, 'properties.jsonl'))]
